@@ -694,15 +694,15 @@ class PSFPhotometry(ModelImageMixin):
             flux -= init_params['local_bkg']
             init_params[fluxcolname] = flux
 
-        if 'group_id' in init_params.colnames:
-            # grouper is ignored if group_id is input in init_params
-            self.grouper = None
-        if self.grouper is not None:
-            group_id = self.grouper(init_params[xcolname],
-                                    init_params[ycolname])
-        else:
-            group_id = init_params['id'].copy()
-        init_params['group_id'] = group_id
+        # grouper is ignored if group_id is input in init_params; the
+        # input group_id values are used as is
+        if 'group_id' not in init_params.colnames:
+            if self.grouper is not None:
+                group_id = self.grouper(init_params[xcolname],
+                                        init_params[ycolname])
+            else:
+                group_id = init_params['id'].copy()
+            init_params['group_id'] = group_id
 
         # add columns for any additional parameters that are fit
         for param_name, colname in self._param_maps['init'].items():
